@@ -25,6 +25,7 @@ type Event struct {
 	Short int  // for write events: >0 => write only Short bytes, then fail with the returned error
 	Split int  // for write events: >0 => write Split bytes, call Mid, then write the rest
 	Data  []byte // for write events: the buffer (read only)
+	IsDir bool   // for sync events: the descriptor is a directory
 }
 
 // Hooks. Before returns a non-nil error to make the call fail without being performed (for
@@ -35,6 +36,10 @@ var (
 	Mid    func(ev *Event)
 	seq    int
 )
+
+// SkipRealSync makes Sync events no-ops on the real file system (they are still reported):
+// explored executions do not need real durability and fsync dominates their cost.
+var SkipRealSync bool
 
 // ResetSeq restarts event numbering (start of an explored execution).
 func ResetSeq() { seq = 0 }
@@ -442,7 +447,24 @@ func (f *File) Sync() error {
 	if f == nil {
 		return real.ErrInvalid
 	}
-	return simple("sync", "sync", f.name(), "", func() error { return f.f.Sync() })
+	ev := &Event{Kind: "sync", Path: f.name()}
+	if Before != nil {
+		if fi, err := f.f.Stat(); err == nil && fi.IsDir() {
+			ev.IsDir = true
+			ev.Kind = "syncdir"
+		}
+	}
+	if err := pre(ev); err != nil {
+		err = perr("sync", f.name(), err)
+		post(ev, err)
+		return err
+	}
+	var err error
+	if !SkipRealSync {
+		err = f.f.Sync()
+	}
+	post(ev, err)
+	return err
 }
 func (f *File) Chmod(mode FileMode) error {
 	if f == nil {
